@@ -115,15 +115,25 @@ type c17Provider struct {
 	mu   sync.Mutex
 	reqs []c17ProvReq
 	fail bool
+	// route, when set, receives every request INSTEAD of the shared list: it attributes the request to the callback
+	// that is running (exactly one handler goroutine runs at any time), may hold it ("slow token endpoint") and says
+	// whether the provider refuses
+	route func(c17ProvReq) (fail bool)
 }
 
 func (p *c17Provider) ServeHTTP(w http.ResponseWriter, r *http.Request) {
 	_ = r.ParseForm()
 	id, _, ok := r.BasicAuth()
 	p.mu.Lock()
-	p.reqs = append(p.reqs, c17ProvReq{form: r.PostForm, basicID: id, hasBasic: ok})
+	route := p.route
 	fail := p.fail
+	if route == nil {
+		p.reqs = append(p.reqs, c17ProvReq{form: r.PostForm, basicID: id, hasBasic: ok})
+	}
 	p.mu.Unlock()
+	if route != nil {
+		fail = route(c17ProvReq{form: r.PostForm, basicID: id, hasBasic: ok})
+	}
 	w.Header().Set("Content-Type", "application/json")
 	if fail {
 		w.WriteHeader(http.StatusBadRequest)
@@ -348,21 +358,162 @@ func (q c17Query) request(cookies []c17Cookie) *http.Request {
 	return r
 }
 
-// runCallback runs the real handler once and writes the line
-func (g *c17Gen) runCallback(c *c17RP, cls string, jar []c17Cookie, q c17Query, provFails bool, browser bool) (resp *http.Response) {
+// ---------------------------------------------------------------- callbacks under an explicit schedule
+
+// c17CbAttempt: one callback request of one browser (its own jar), served by the shared handler
+type c17CbAttempt struct {
+	cls       string
+	jar       []c17Cookie
+	q         c17Query
+	provFails bool
+	browser   bool
+
+	rec      *httptest.ResponseRecorder
+	resume   chan struct{}
+	parked   chan string
+	finished bool
+	panicked bool
+	called   bool
+	cbState  string
+	reqs     []c17ProvReq // what the provider received WHILE THIS callback was the running one
+}
+
+// c17HookRP wraps the RelyingParty the application hands to the handlers: every accessor the handler consults
+// between reading the cookies and sending the token request is a point at which another request can be served.
+type c17HookRP struct {
+	rp.RelyingParty
+	park func(string)
+}
+
+func (h *c17HookRP) IsPKCE() bool { h.park("k"); return h.RelyingParty.IsPKCE() }
+func (h *c17HookRP) Signer() jose.Signer {
+	h.park("g")
+	return h.RelyingParty.Signer()
+}
+func (h *c17HookRP) OAuthConfig() *oauth2.Config { h.park("o"); return h.RelyingParty.OAuthConfig() }
+func (h *c17HookRP) UnauthorizedHandler() func(http.ResponseWriter, *http.Request, string, string) {
+	return h.RelyingParty.(rp.HasUnauthorizedHandler).UnauthorizedHandler()
+}
+
+// c17Exchange: the ONE CodeExchangeHandler of an RP, created once as an application does at start-up.
+type c17Exchange struct {
+	handler http.HandlerFunc
+	cur     *c17CbAttempt // the one callback that is running (exactly one goroutine runs at any time)
+}
+
+func newC17Exchange(g *c17Gen, c *c17RP) *c17Exchange {
+	ex := &c17Exchange{}
+	park := func(at string) {
+		a := ex.cur
+		if a == nil {
+			return
+		}
+		a.parked <- at
+		<-a.resume
+	}
+	hookParam := rp.URLParamOpt(func() []oauth2.AuthCodeOption {
+		park("p") // evaluated while CodeExchange collects the options, before the verifier option is read
+		return nil
+	})
+	callback := func(w http.ResponseWriter, _ *http.Request, _ *oidc.Tokens[*oidc.IDTokenClaims], state string, _ rp.RelyingParty) {
+		if a := ex.cur; a != nil {
+			a.called, a.cbState = true, state
+		}
+		w.WriteHeader(http.StatusOK)
+	}
+	opts := append([]rp.URLParamOpt{hookParam}, urlParamOpts(c.cbParam)...)
+	ex.handler = rp.CodeExchangeHandler(callback, &c17HookRP{RelyingParty: c.party, park: park}, opts...)
+	g.prov.mu.Lock()
+	g.prov.route = func(pr c17ProvReq) bool {
+		a := ex.cur
+		if a == nil {
+			return false
+		}
+		a.reqs = append(a.reqs, pr)
+		park("t") // a slow token endpoint
+		return a.provFails
+	}
+	g.prov.mu.Unlock()
+	return ex
+}
+
+// run serves the callbacks under a schedule (pick chooses which live callback advances by one segment) and returns
+// them in completion order.
+func (ex *c17Exchange) run(as []*c17CbAttempt, pick func(n int) int) (done []*c17CbAttempt, trace []string) {
+	started := make([]bool, len(as))
+	for _, a := range as {
+		a.rec, a.resume, a.parked = httptest.NewRecorder(), make(chan struct{}), make(chan string, 1)
+	}
+	for len(done) < len(as) {
+		var live []int
+		for i, a := range as {
+			if !a.finished {
+				live = append(live, i)
+			}
+		}
+		i := live[pick(len(live))]
+		a := as[i]
+		ex.cur = a
+		if !started[i] {
+			started[i] = true
+			req := a.q.request(a.jar)
+			go func() {
+				defer func() {
+					if recover() != nil {
+						a.panicked = true
+					}
+					a.parked <- "d"
+				}()
+				ex.handler(a.rec, req)
+			}()
+		} else {
+			a.resume <- struct{}{}
+		}
+		at := <-a.parked
+		trace = append(trace, fmt.Sprintf("%d%s", i, at))
+		if at == "d" {
+			a.finished = true
+			done = append(done, a)
+		}
+	}
+	ex.cur = nil
+	return done, trace
+}
+
+// holdSchedule: a deterministic interleaving - callback 0 is advanced to its `hold`-th park point and held there
+// while all the others run to completion one after the other, then it is resumed.
+func holdSchedule(hold int) func(n int) int {
+	step := 0
+	return func(n int) int {
+		if n == 1 {
+			return 0
+		}
+		if step < hold {
+			step++
+			return 0 // callback 0 is live[0] as long as it has not finished
+		}
+		return 1 // callback 0 is parked: the first unfinished other one moves
+	}
+}
+
+// cbLine writes the line of one finished callback
+func (g *c17Gen) cbLine(c *c17RP, a *c17CbAttempt, sched string) (resp *http.Response) {
 	g.caseNo++
-	l := hx.NewLine("C17").S("op", "cb").I("case", int64(g.caseNo)).S("cls", cls).B("browser", browser)
+	l := hx.NewLine("C17").S("op", "cb").I("case", int64(g.caseNo)).S("cls", a.cls).B("browser", a.browser)
+	if sched != "" {
+		l.S("sched", sched)
+	}
 	g.markFresh(l)
 	c.cfgKV(l)
 	paramKV(l, c.cbParam)
-	req := q.request(jar)
+	req := a.q.request(a.jar)
 	// the jar and the form as net/http hands them to the handler (oracle)
 	var parsed []c17Cookie
 	for _, ck := range req.Cookies() {
 		parsed = append(parsed, c17Cookie{ck.Name, ck.Value})
 	}
 	g.cookieLists(l, "j.", parsed, nil)
-	probe := q.request(nil)
+	probe := a.q.request(nil)
 	_ = probe.ParseForm()
 	var fk, fv []string
 	for k := range probe.Form {
@@ -372,39 +523,21 @@ func (g *c17Gen) runCallback(c *c17RP, cls string, jar []c17Cookie, q c17Query, 
 	for _, k := range fk {
 		fv = append(fv, probe.Form[k][0])
 	}
-	l.L("f.k", fk).L("f.v", fv).B("provfail", provFails)
+	l.L("f.k", fk).L("f.v", fv).B("provfail", a.provFails)
 
-	g.prov.mu.Lock()
-	g.prov.fail = provFails
-	g.prov.reqs = nil
-	g.prov.mu.Unlock()
-	rec := httptest.NewRecorder()
-	called, cbState, panicked := false, "", false
-	callback := func(w http.ResponseWriter, _ *http.Request, _ *oidc.Tokens[*oidc.IDTokenClaims], state string, _ rp.RelyingParty) {
-		called, cbState = true, state
-		w.WriteHeader(http.StatusOK)
-	}
-	func() {
-		defer func() {
-			if recover() != nil {
-				panicked = true
-			}
-		}()
-		rp.CodeExchangeHandler(callback, c.party, urlParamOpts(c.cbParam)...)(rec, req)
-	}()
-	resp = rec.Result()
+	resp = a.rec.Result()
 	kind := "none"
 	switch {
-	case panicked:
+	case a.panicked:
 		kind = "panic"
-	case called:
+	case a.called:
 		kind = "cb"
 	case resp.Header.Get("X-Verif-Hook") != "":
 		kind = resp.Header.Get("X-Verif-Hook")
 	}
-	l.S("o.kind", kind).I("o.status", int64(resp.StatusCode)).B("o.hascb", called).S("o.cbst", cbState)
+	l.S("o.kind", kind).I("o.status", int64(resp.StatusCode)).B("o.hascb", a.called).S("o.cbst", a.cbState)
 	l.S("o.hst", unescHeader(resp.Header.Get("X-Verif-State")))
-	reqs := g.prov.take()
+	reqs := a.reqs
 	l.I("o.treq", int64(len(reqs)))
 	for i, pr := range reqs {
 		p := fmt.Sprintf("o.t%d.", i)
@@ -449,13 +582,20 @@ func (g *c17Gen) runCallback(c *c17RP, cls string, jar []c17Cookie, q c17Query, 
 	fmt.Fprintln(g.w, l.String())
 	g.stats["op.cb"]++
 	g.stats["cb.kind."+kind]++
-	if browser {
+	if a.browser {
 		g.stats["cb.history"]++
 	}
 	if len(reqs) > 0 {
 		g.stats["cb.exchanged"]++
 	}
 	return resp
+}
+
+// runCallback serves ONE callback through the handler `ex` and writes the line
+func (g *c17Gen) runCallback(c *c17RP, ex *c17Exchange, cls string, jar []c17Cookie, q c17Query, provFails bool, browser bool) (resp *http.Response) {
+	a := &c17CbAttempt{cls: cls, jar: jar, q: q, provFails: provFails, browser: browser}
+	ex.run([]*c17CbAttempt{a}, func(int) int { return 0 })
+	return g.cbLine(c, a, "")
 }
 
 func unescHeader(s string) string {
@@ -494,6 +634,8 @@ type c17Attempt struct {
 	finished bool
 	panicked bool
 	segs     int
+
+	stateCalls int
 }
 
 type c17Login struct {
@@ -513,6 +655,11 @@ func newC17Login(c *c17RP) *c17Login {
 	stateFn := func() string {
 		a := lg.cur
 		park("state")
+		// an application's stateFn returns a fresh value on every call (uuid): a handler that asks twice gets two states
+		a.stateCalls++
+		if a.stateCalls > 1 {
+			return fmt.Sprintf("%s~call%d", a.state, a.stateCalls)
+		}
 		return a.state
 	}
 	hookParam := rp.URLParamOpt(func() []oauth2.AuthCodeOption {
@@ -704,8 +851,134 @@ func otherKeys(r *hx.Rand, c *c17RP, what string) (int, int) {
 // ---------------------------------------------------------------- part 1: single callbacks over explicit jars
 
 var c17CookieDefects = []string{"valid", "missing", "hash", "block", "both", "othername", "renamed", "truncated", "flipped", "junk", "empty",
-	"othervalue", "emptyvalue", "dup-junk-first", "dup-valid-first"}
-var c17QueryShapes = []string{"match", "differs", "absent", "empty", "dup-match-first", "dup-other-first", "body-overrides", "body-match", "error", "nocode"}
+	"othervalue", "emptyvalue", "dup-junk-first", "dup-valid-first", "latevalue", "nulvalue"}
+var c17QueryShapes = []string{"match", "differs", "absent", "empty", "dup-match-first", "dup-other-first", "body-overrides", "body-match", "error", "nocode",
+	"late-flip", "late-trunc", "cut64", "extended", "nul-pad", "nul-strip", "case-swap"}
+
+// shapes in which the state parameter agrees with the cookie's state on a long prefix and differs late / only in length
+var c17LateShapes = []string{"late-flip", "late-trunc", "cut64", "extended", "nul-pad", "nul-strip", "case-swap"}
+
+// c17Boundaries: comparison buffers / block sizes an implementation might truncate at
+var c17Boundaries = []int{16, 32, 64, 128, 256, 512, 1024}
+
+// lateVariant returns a value that differs from `state` (whenever state is not empty) but shares a long prefix with it
+func (g *c17Gen) lateVariant(shape, state string) string {
+	n := len(state)
+	switch shape {
+	case "late-flip": // one byte changed behind a boundary (or the last one)
+		if n == 0 {
+			return "x"
+		}
+		pos := n - 1
+		var cands []int
+		for _, b := range c17Boundaries {
+			if b < n {
+				cands = append(cands, b, b+g.r.Intn(n-b))
+			}
+		}
+		if len(cands) > 0 && !g.r.Chance(20) {
+			pos = cands[g.r.Intn(len(cands))]
+		}
+		b := []byte(state)
+		if b[pos] == 'Z' {
+			b[pos] = 'Y'
+		} else {
+			b[pos] = 'Z'
+		}
+		return string(b)
+	case "late-trunc": // the last byte(s) missing
+		if n == 0 {
+			return ""
+		}
+		return state[:n-1-g.r.Intn((n+3)/4)]
+	case "cut64": // cut at a boundary
+		var cands []int
+		for _, b := range c17Boundaries {
+			if b < n {
+				cands = append(cands, b)
+			}
+		}
+		if len(cands) == 0 {
+			return state[:n/2]
+		}
+		return state[:cands[g.r.Intn(len(cands))]]
+	case "extended":
+		return state + hx.Pick(g.r, "x", "0", "-and-a-much-longer-tail-0123456789", "&", " ", "\t", "\n")
+	case "case-swap": // the same letters in another case (the last letter, or all of them)
+		b := []byte(state)
+		swapped := false
+		for i := n - 1; i >= 0; i-- {
+			if c := b[i]; (c >= 'a' && c <= 'z') || (c >= 'A' && c <= 'Z') {
+				b[i] = c ^ 0x20
+				swapped = true
+				if g.r.Bool() {
+					break
+				}
+			}
+		}
+		if !swapped {
+			return state + "x"
+		}
+		return string(b)
+	case "nul-pad":
+		return state + strings.Repeat("\x00", 1+g.r.Intn(3))
+	case "nul-strip":
+		if t := strings.TrimRight(state, "\x00"); t != state {
+			return t
+		}
+		return state + "\x00"
+	}
+	return state
+}
+
+// unusualState: a legal state of unusual length / content (uuid + encoded return_to URL, long runs, trailing NULs);
+// always something the RP's securecookie can encode
+func (g *c17Gen) unusualState(c *c17RP) string {
+	n := hx.Pick(g.r, 63, 64, 65, 66, 96, 127, 128, 129, 200, 255, 256, 257, 300, 511, 513, 1000, 1500, 2000)
+	b := make([]byte, n)
+	switch g.r.Intn(3) {
+	case 0:
+		const al = "abcdefghijklmnopqrstuvwxyzABCDEFGHIJKLMNOPQRSTUVWXY0123456789-_.~ /=&"
+		for i := range b {
+			b[i] = al[g.r.Intn(len(al))]
+		}
+	case 1: // one long run: every window looks the same
+		ch := hx.Pick(g.r, byte('a'), byte('0'), byte('-'))
+		for i := range b {
+			b[i] = ch
+		}
+	default: // uuid + return_to, repeated
+		pat := fmt.Sprintf("%08x-return_to=https://rp.example/app/page?id=%d&", g.r.U64()&0xffffffff, g.r.Intn(100))
+		for i := range b {
+			b[i] = pat[i%len(pat)]
+		}
+	}
+	if g.r.Chance(25) { // trailing NUL bytes
+		for k := 1 + g.r.Intn(3); k > 0 && k < n; k-- {
+			b[n-k] = 0
+		}
+	}
+	s := string(b)
+	own := g.codecs.sc[[2]int{c.hk, c.bk}]
+	for {
+		if _, err := own.Encode("state", s); err == nil || len(s) < 8 {
+			break
+		}
+		s = s[:len(s)*3/4]
+	}
+	g.stats[fmt.Sprintf("state.len>=%d", lenBucket(len(s)))]++
+	return s
+}
+
+func lenBucket(n int) int {
+	b := 0
+	for _, x := range []int{64, 128, 256, 1024} {
+		if n > x {
+			b = x
+		}
+	}
+	return b
+}
 
 // defectCookies returns the cookie(s) to send for cookie `name` whose genuine content is `content`
 func (g *c17Gen) defectCookies(c *c17RP, name, content, otherRaw, defect string) []c17Cookie {
@@ -738,6 +1011,10 @@ func (g *c17Gen) defectCookies(c *c17RP, name, content, otherRaw, defect string)
 		return []c17Cookie{{name, g.codecs.mint(c.hk, c.bk, name, content+"-x")}}
 	case "emptyvalue": // genuinely signed for this name, empty content
 		return []c17Cookie{{name, g.codecs.mint(c.hk, c.bk, name, "")}}
+	case "latevalue": // genuinely signed for this name, content differing late / only in length
+		return []c17Cookie{{name, g.codecs.mint(c.hk, c.bk, name, g.lateVariant(hx.Pick(g.r, "late-flip", "late-trunc", "cut64", "extended", "case-swap"), content))}}
+	case "nulvalue": // genuinely signed for this name, content differing in trailing NUL bytes only
+		return []c17Cookie{{name, g.codecs.mint(c.hk, c.bk, name, g.lateVariant(hx.Pick(g.r, "nul-pad", "nul-strip"), content))}}
 	case "dup-junk-first":
 		return []c17Cookie{{name, g.junk()}, {name, valid}}
 	case "dup-valid-first":
@@ -778,6 +1055,8 @@ func (g *c17Gen) query(shape, state, code string) c17Query {
 	case "nocode":
 		q.query.Set("state", state)
 		q.query.Del("code")
+	case "late-flip", "late-trunc", "cut64", "extended", "nul-pad", "nul-strip", "case-swap":
+		q.query.Set("state", g.lateVariant(shape, state))
 	}
 	return q
 }
@@ -789,17 +1068,30 @@ func (g *c17Gen) singleCallback(tokenURL string) {
 		return
 	}
 	g.newBrowser()
-	state := hx.Pick(g.r, "s1", "state-"+fmt.Sprint(g.r.Intn(1000)), "a b&c=d", "ü-state", "")
+	ex := newC17Exchange(g, c)
+	state := hx.Pick(g.r, "s1", "state-"+fmt.Sprint(g.r.Intn(1000)), "a b&c=d", "ü-state", "", "s1\x00")
+	if g.r.Chance(30) {
+		state = g.unusualState(c)
+	}
 	verifier := base64.RawURLEncoding.EncodeToString([]byte(fmt.Sprintf("verifier-%d", g.r.Intn(1_000_000))))
 	sd, pd, qs := "valid", "valid", "match"
 	switch x := g.r.Intn(100); {
-	case x < 22: // everything in order
-	case x < 50:
+	case x < 18: // everything in order
+	case x < 42:
 		sd = c17CookieDefects[1+g.r.Intn(len(c17CookieDefects)-1)]
-	case x < 62:
+	case x < 52:
 		pd = c17CookieDefects[1+g.r.Intn(len(c17CookieDefects)-1)]
-	case x < 74:
+	case x < 62:
 		qs = c17QueryShapes[1+g.r.Intn(len(c17QueryShapes)-1)]
+	case x < 76: // long common prefix: the state parameter / the cookie content differs late, only in length, in NUL bytes
+		if g.r.Chance(70) {
+			state = g.unusualState(c)
+		}
+		if g.r.Chance(70) {
+			qs = c17LateShapes[g.r.Intn(len(c17LateShapes))]
+		} else {
+			sd = hx.Pick(g.r, "latevalue", "nulvalue")
+		}
 	case x < 90: // an unverifiable state cookie AND a query without usable state (login CSRF shape)
 		sd = hx.Pick(g.r, "hash", "block", "both", "othername", "renamed", "truncated", "flipped", "junk", "empty", "emptyvalue")
 		qs = hx.Pick(g.r, "absent", "empty")
@@ -824,7 +1116,64 @@ func (g *c17Gen) singleCallback(tokenURL string) {
 	g.stats["cb.state-cookie."+sd]++
 	g.stats["cb.pkce-cookie."+pd]++
 	g.stats["cb.query."+qs]++
-	g.runCallback(c, "s:"+sd+"/p:"+pd+"/q:"+qs, jar, q, g.r.Chance(15), false)
+	g.runCallback(c, ex, "s:"+sd+"/p:"+pd+"/q:"+qs, jar, q, g.r.Chance(15), false)
+}
+
+// ---------------------------------------------------------------- part 3: overlapping callbacks through ONE handler
+
+// overlappingCallbacks: 2-4 browsers (each with its own jar) return from the provider at the same time; their
+// callbacks are served by the ONE CodeExchangeHandler of the RP under an explicit schedule. Every line is judged
+// against ITS OWN jar.
+func (g *c17Gen) overlappingCallbacks(tokenURL string) {
+	force := map[string]int{}
+	if g.r.Chance(85) {
+		force["pkce"] = 1
+	}
+	c, err := newC17RP(g.r, tokenURL, force)
+	if err != nil {
+		g.stats["rp.error"]++
+		return
+	}
+	g.newBrowser()
+	ex := newC17Exchange(g, c)
+	k := 2 + g.r.Intn(3)
+	var as []*c17CbAttempt
+	for j := 0; j < k; j++ {
+		state := fmt.Sprintf("st-%d-%d", j, g.r.Intn(1000))
+		if g.r.Chance(15) {
+			state = g.unusualState(c)
+		}
+		verifier := base64.RawURLEncoding.EncodeToString([]byte(fmt.Sprintf("verifier-%d-%d", j, g.r.Intn(1_000_000))))
+		sd, pd, qs := "valid", "valid", "match"
+		switch x := g.r.Intn(100); {
+		case x < 75:
+		case x < 83:
+			sd = c17CookieDefects[1+g.r.Intn(len(c17CookieDefects)-1)]
+		case x < 91:
+			pd = c17CookieDefects[1+g.r.Intn(len(c17CookieDefects)-1)]
+		default:
+			qs = c17QueryShapes[1+g.r.Intn(len(c17QueryShapes)-1)]
+		}
+		validState := g.codecs.mint(c.hk, c.bk, "state", state)
+		validPkce := g.codecs.mint(c.hk, c.bk, "pkce", verifier)
+		jar := append(g.defectCookies(c, "state", state, validPkce, sd), g.defectCookies(c, "pkce", verifier, validState, pd)...)
+		as = append(as, &c17CbAttempt{cls: "s:" + sd + "/p:" + pd + "/q:" + qs, jar: jar,
+			q: g.query(qs, state, fmt.Sprintf("code-%d", j)), provFails: g.r.Chance(10)})
+	}
+	pick, kind := g.r.Intn, "rand"
+	if g.r.Chance(60) { // hold the first callback at one of its park points while the others are served completely
+		pick, kind = holdSchedule(1+g.r.Intn(12)), "hold"
+	}
+	done, trace := ex.run(as, pick)
+	tag := fmt.Sprintf("cbconc%d-%s", k, kind)
+	if overlapped(trace) {
+		tag += "-overlap"
+	}
+	g.stats["cbsched."+tag]++
+	for _, a := range done {
+		a.cls = tag + "/" + a.cls
+		g.cbLine(c, a, strings.Join(trace, "."))
+	}
 }
 
 // ---------------------------------------------------------------- part 2: browser histories
@@ -842,6 +1191,7 @@ func (g *c17Gen) history(tokenURL string, tier string) {
 	g.newBrowser()
 	login := newC17Login(c)
 	foreignLogin := newC17Login(foreign)
+	ex := newC17Exchange(g, c)
 	var jar []c17Cookie
 	var states []string
 	nextState := 0
@@ -851,6 +1201,9 @@ func (g *c17Gen) history(tokenURL string, tier string) {
 			return strings.Repeat("x", 5000) // securecookie refuses to encode it
 		}
 		s := fmt.Sprintf("st-%d", nextState)
+		if g.r.Chance(12) { // the application packs more into the state (return_to URL): longer than any comparison buffer
+			s = fmt.Sprintf("st-%d-", nextState) + g.unusualState(c)
+		}
 		states = append(states, s)
 		return s
 	}
@@ -869,7 +1222,11 @@ func (g *c17Gen) history(tokenURL string, tier string) {
 			for j := 0; j < k; j++ {
 				sts = append(sts, newState())
 			}
-			done, trace := login.run(sts, g.r.Intn)
+			pick := g.r.Intn
+			if k > 1 && g.r.Chance(40) { // hold the first attempt at a park point while the others are served completely
+				pick = holdSchedule(1 + g.r.Intn(2))
+			}
+			done, trace := login.run(sts, pick)
 			cls := "seq"
 			if k > 1 {
 				cls = fmt.Sprintf("conc%d", k)
@@ -902,10 +1259,24 @@ func (g *c17Gen) history(tokenURL string, tier string) {
 				}
 			}
 			qs := "match"
-			if g.r.Chance(15) {
-				qs = hx.Pick(g.r, "absent", "empty", "error", "dup-other-first")
+			if g.r.Chance(22) {
+				qs = hx.Pick(g.r, "absent", "empty", "error", "dup-other-first", "late-flip", "late-trunc", "cut64", "extended", "nul-pad", "nul-strip", "case-swap")
 			}
-			resp := g.runCallback(c, "hist/q:"+qs, jar, g.query(qs, st, "code-"+fmt.Sprint(i)), g.r.Chance(12), true)
+			if g.r.Chance(15) { // the browser submits the callback twice (or two tabs return at once): both see the same jar
+				st2 := st
+				if len(states) > 0 && g.r.Bool() {
+					st2 = states[g.r.Intn(len(states))]
+				}
+				as := []*c17CbAttempt{
+					{cls: "hist2/q:" + qs, jar: jar, q: g.query(qs, st, "code-"+fmt.Sprint(i)), provFails: g.r.Chance(12), browser: true},
+					{cls: "hist2/q:match", jar: jar, q: g.query("match", st2, "code-"+fmt.Sprint(i)+"b"), provFails: g.r.Chance(12), browser: true}}
+				done, trace := ex.run(as, g.r.Intn)
+				for _, a := range done {
+					jar = applySetCookies(jar, g.cbLine(c, a, strings.Join(trace, ".")))
+				}
+				break
+			}
+			resp := g.runCallback(c, ex, "hist/q:"+qs, jar, g.query(qs, st, "code-"+fmt.Sprint(i)), g.r.Chance(12), true)
 			jar = applySetCookies(jar, resp)
 		default: // tampering by somebody who does not hold the RP's keys
 			jar = g.tamper(jar, foreign, foreignLogin)
@@ -1017,9 +1388,12 @@ func c17Stream(r *hx.Rand, tier string, n int, w *bufio.Writer) map[string]int {
 	}
 	tokenURL := g.srv.URL + "/token"
 	for g.caseNo < n {
-		if g.r.Chance(14) {
+		switch x := g.r.Intn(100); {
+		case x < 14:
 			g.history(tokenURL, tier)
-		} else {
+		case x < 26:
+			g.overlappingCallbacks(tokenURL)
+		default:
 			g.singleCallback(tokenURL)
 		}
 	}
